@@ -16,7 +16,6 @@ package static
 import (
 	"fmt"
 	"regexp"
-	"strings"
 
 	"github.com/attestantio/dirk/services/checker"
 	"github.com/attestantio/dirk/services/metrics"
@@ -120,23 +119,14 @@ func parseAndCheckParameters(params ...Parameter) (*parameters, error) {
 	return &parameters, nil
 }
 
-// regexify turns a name in to a regex.  It attaches anchors if required, and also makes the regex case-insensitive.
+// regexify turns a name in to a regex.  It anchors the whole of the name, and also makes the regex case-insensitive.
 func regexify(name string) (*regexp.Regexp, error) {
 	// Empty equates to all.
 	if name == "" {
-		name = "(?i).*"
-	}
-	// Anchor if required.
-	if !strings.HasPrefix(name, "^") {
-		name = fmt.Sprintf("^%s", name)
-	}
-	if !strings.HasSuffix(name, "$") {
-		name = fmt.Sprintf("%s$", name)
-	}
-	// Case insensitivity if required.
-	if !strings.HasPrefix(name, "(?i)") {
-		name = fmt.Sprintf("(?i)%s", name)
+		name = ".*"
 	}
 
-	return regexp.Compile(name)
+	// The name is grouped so that the anchors apply to all of it, not just to the
+	// first and last of its alternatives.
+	return regexp.Compile(fmt.Sprintf("(?i)^(?:%s)$", name))
 }
